@@ -113,22 +113,33 @@ Definition roc_of (c : ctx) (ssrc : N) : N :=
   | Some s => (ss_index s / two16) mod two32     (* uint32(state.index >> 16) *)
   end.
 
-(* EncryptRTP's effect on the context: Some (new ctx, ROC the packet is protected with); None = errExceededMaxPackets *)
-Definition ctx_send (c : ctx) (ssrc seq : N) : option (ctx * N) :=
-  let s := match sm_get (c_states c) ssrc with Some s => s | None => mkSS 0 false end in
+(* one SSRC state under EncryptRTP: Some (new state, ROC the packet is protected with); None = errExceededMaxPackets *)
+Definition st_send (s : sstate) (seq : N) : option (sstate * N) :=
   let '(roc, diff, ovf) := next_roc s seq in
-  if ovf then None
-  else Some (mkCtx (c_key c) (c_mki c) (c_ssrcs c) (c_start c) (sm_set (c_states c) ssrc (update_roc s seq diff)), roc).
+  if ovf then None else Some (update_roc s seq diff, roc).
 
-(* DecryptRTP of a packet that was protected with ROC [proc_roc] under the same key, with an ideal
-   authenticated cipher: accepted iff the guessed ROC is the one the sender used (Cipher.v proves
-   this equivalence from the cipher hypotheses).  The state is committed only on success. *)
-Definition ctx_recv (c : ctx) (ssrc seq proc_roc : N) : ctx * bool :=
-  let s := match sm_get (c_states c) ssrc with Some s => s | None => mkSS 0 false end in
+(* one SSRC state under DecryptRTP of a packet that was protected with ROC [proc_roc] under the same
+   key, with an ideal authenticated cipher: accepted iff the guessed ROC is the one the sender used
+   (Cipher.v proves this equivalence from the cipher hypotheses).  The state is committed only on success. *)
+Definition st_recv (s : sstate) (seq proc_roc : N) : sstate * bool :=
   let '(roc, diff, _) := next_roc s seq in
-  if roc =? proc_roc
-  then (mkCtx (c_key c) (c_mki c) (c_ssrcs c) (c_start c) (sm_set (c_states c) ssrc (update_roc s seq diff)), true)
-  else (c, false).
+  if roc =? proc_roc then (update_roc s seq diff, true) else (s, false).
+
+(* getSRTPSSRCState: a missing entry is a zero state *)
+Definition get_state (c : ctx) (ssrc : N) : sstate :=
+  match sm_get (c_states c) ssrc with Some s => s | None => mkSS 0 false end.
+Definition with_state (c : ctx) (ssrc : N) (s : sstate) : ctx :=
+  mkCtx (c_key c) (c_mki c) (c_ssrcs c) (c_start c) (sm_set (c_states c) ssrc s).
+
+Definition ctx_send (c : ctx) (ssrc seq : N) : option (ctx * N) :=
+  match st_send (get_state c ssrc) seq with
+  | None => None
+  | Some (s', roc) => Some (with_state c ssrc s', roc)
+  end.
+
+Definition ctx_recv (c : ctx) (ssrc seq proc_roc : N) : ctx * bool :=
+  let '(s', ok) := st_recv (get_state c ssrc) seq proc_roc in
+  if ok then (with_state c ssrc s', true) else (c, false).
 
 (* ------------------------------------------------------------------------------------------ *)
 (* 3. abstract MIKEY message and the two conversions                                            *)
